@@ -84,7 +84,9 @@ Record cjob := mkCJob {
 }.
 
 Record cache := mkCache {
-  c_store : gmap positive pod;      (* informer store / API content *)
+  c_store : gmap positive pod;      (* informer store: the last delivered version of every pod *)
+  c_gone : gset positive;           (* pods already deleted on the API server whose delete
+                                       notification has not been delivered yet (informer lag) *)
   c_heap : gmap positive task;      (* the TaskInfo objects held in JobInfo.Tasks, by pod id (for a pod
                                        without a job: a ghost copy of the task built at its last add) *)
   c_jobs : gmap positive cjob;
@@ -95,21 +97,21 @@ Record cache := mkCache {
   c_delq : list (positive * Z);          (* DeletedJobs keys (job, PgUID) *)
 }.
 
-Definition empty_cache : cache := mkCache ∅ ∅ ∅ ∅ [] ∅ [] [].
+Definition empty_cache : cache := mkCache ∅ ∅ ∅ ∅ ∅ [] ∅ [] [].
 
-Definition with_store (c : cache) (s : gmap positive pod) : cache :=
-  mkCache s (c_heap c) (c_jobs c) (c_nodes c) (c_nodelist c) (c_queues c) (c_errq c) (c_delq c).
+Definition with_store (c : cache) (s : gmap positive pod) (g : gset positive) : cache :=
+  mkCache s g (c_heap c) (c_jobs c) (c_nodes c) (c_nodelist c) (c_queues c) (c_errq c) (c_delq c).
 Definition with_hjn (c : cache) (h : gmap positive task) (j : gmap positive cjob) (n : gmap positive node) : cache :=
-  mkCache (c_store c) h j n (c_nodelist c) (c_queues c) (c_errq c) (c_delq c).
+  mkCache (c_store c) (c_gone c) h j n (c_nodelist c) (c_queues c) (c_errq c) (c_delq c).
 Definition with_jobs (c : cache) (j : gmap positive cjob) : cache := with_hjn c (c_heap c) j (c_nodes c).
 Definition with_nodes (c : cache) (n : gmap positive node) (l : list positive) : cache :=
-  mkCache (c_store c) (c_heap c) (c_jobs c) n l (c_queues c) (c_errq c) (c_delq c).
+  mkCache (c_store c) (c_gone c) (c_heap c) (c_jobs c) n l (c_queues c) (c_errq c) (c_delq c).
 Definition with_queues (c : cache) (q : gset positive) : cache :=
-  mkCache (c_store c) (c_heap c) (c_jobs c) (c_nodes c) (c_nodelist c) q (c_errq c) (c_delq c).
+  mkCache (c_store c) (c_gone c) (c_heap c) (c_jobs c) (c_nodes c) (c_nodelist c) q (c_errq c) (c_delq c).
 Definition with_errq (c : cache) (q : list (positive * positive)) : cache :=
-  mkCache (c_store c) (c_heap c) (c_jobs c) (c_nodes c) (c_nodelist c) (c_queues c) q (c_delq c).
+  mkCache (c_store c) (c_gone c) (c_heap c) (c_jobs c) (c_nodes c) (c_nodelist c) (c_queues c) q (c_delq c).
 Definition with_delq (c : cache) (q : list (positive * Z)) : cache :=
-  mkCache (c_store c) (c_heap c) (c_jobs c) (c_nodes c) (c_nodelist c) (c_queues c) (c_errq c) q.
+  mkCache (c_store c) (c_gone c) (c_heap c) (c_jobs c) (c_nodes c) (c_nodelist c) (c_queues c) (c_errq c) q.
 
 (* workqueue.Add: no duplicate of a waiting key *)
 Definition enq {A} `{EqDecision A} (q : list A) (k : A) : list A :=
@@ -354,9 +356,12 @@ Definition drain_cleanup (c : cache) : cache :=
   with_delq c' keep.
 
 (* syncTask(stored): re-read the pod; (cache, ok) *)
+Definition api_pod (c : cache) (id : positive) : option pod :=
+  if bool_decide (id ∈ c_gone c) then None else c_store c !! id.
+
 Definition sync_task (c : cache) (j : positive) (st : task) : cache * bool :=
-  match c_store c !! t_id st with
-  | None => (delete_task c (Some j) st, true)
+  match api_pod c (t_id st) with
+  | None => (delete_task c (Some j) st, true)      (* NotFound: no cleanup is queued for the job *)
   | Some p => add_task (delete_task c (Some j) st) (p_job p) (task_of_pod p)
   end.
 
@@ -383,8 +388,11 @@ Inductive opres := RDone | RNoTask | RNoNode | RNoPodGroup | RNodeRefused.
 Definition job_set_status (j : job) (st : task) (s : status) : job * task :=
   let t' := set_status st s in (job_add (job_del j st) t', t').
 
-(* AddBindTask for the task [tid] of job [jid] placed on node [nid]; [bind_ok] is
-   the binder's answer, a failed bind queues the task for resync *)
+(* AddBindTask for the task [tid] of job [jid] placed on node [nid], followed by
+   what BindTask runs for the queued context: the pre-binders, then Binder.Bind.
+   [bind_ok] = every pre-binder and the binder succeeded; a failure of either
+   (executePreBinds 1437-1455, Bind 984-1016) queues the task for resync,
+   whatever the pod status update answers *)
 Definition bind_task (c : cache) (jid tid nid : positive) (bind_ok : bool) : cache * opres :=
   match c_jobs c !! jid, stored_task c (Some jid) tid with
   | Some cj, Some st =>
@@ -479,7 +487,8 @@ Inductive event :=
 | EDrainCleanup               (* processCleanupJob on every waiting key *)
 | EDrainResync                (* processResyncTask on every waiting key *)
 | EBind (jid tid nid : positive) (ok : bool)
-| EEvict (jid tid : positive) (ok : bool).
+| EEvict (jid tid : positive) (ok : bool)
+| EApiGone (id : positive).   (* the pod is deleted on the API server; DeletePod comes later *)
 
 Definition handle_with (rm : cache -> positive -> cache) (c : cache) (e : event) : cache :=
   match e with
@@ -488,11 +497,11 @@ Definition handle_with (rm : cache -> positive -> cache) (c : cache) (e : event)
               | None => add_pod c p
               | Some old => update_pod c old p
               end in
-    with_store c1 (<[p_id p := p]> (c_store c1))
+    with_store c1 (<[p_id p := p]> (c_store c1)) (c_gone c1 ∖ {[p_id p]})
   | EPodDel id =>
     match c_store c !! id with
     | None => c
-    | Some old => let c1 := delete_pod c old in with_store c1 (delete id (c_store c1))
+    | Some old => let c1 := delete_pod c old in with_store c1 (delete id (c_store c1)) (c_gone c1 ∖ {[id]})
     end
   | ENode o => add_or_update_node c o
   | ENodeDel id => rm c id
@@ -504,6 +513,7 @@ Definition handle_with (rm : cache -> positive -> cache) (c : cache) (e : event)
   | EDrainResync => drain_resync c
   | EBind j t n ok => fst (bind_task c j t n ok)
   | EEvict j t ok => fst (evict_task c j t ok)
+  | EApiGone id => if bool_decide (is_Some (c_store c !! id)) then with_store c (c_store c) ({[id]} ∪ c_gone c) else c
   end.
 
 Definition handle := handle_with remove_node.
